@@ -97,6 +97,22 @@ func (g *Gen) simpleStmt() []Stmt {
 			CallSN("emit", Str("literal-object-store"), &EParen{X: CallN("pcall", Fn(nil, false, Blk(Assign1(lhs, Num(1)))))}, Dot(N(witness), "x"), Idx(N(witness), Num(1)))}
 	}
 	if g.R.Intn(30) == 0 {
+		// a non-integral number is a key of its own, next to the integer keys around it
+		t, h := g.fresh("ft"), g.fresh("fh")
+		n := 3 + 2*g.R.Intn(3) // odd length: #t/2 is x.5
+		items := []TItem{}
+		for i := 1; i <= n; i++ {
+			items = append(items, TItem{Kind: TPos, Val: Num(float64(i * 10))})
+		}
+		g.cover("index:fractional-number-keys")
+		return []Stmt{Local1(t, &ETable{Items: items}), Local1(h, Bin("/", Un("#", N(t)), Num(2))),
+			CallSN("emit", Str("fractional-read"), Idx(N(t), N(h)), Idx(N(t), Num(1.5)), Idx(N(t), Bin("+", N(h), Num(0.5))), Idx(N(t), Bin("-", Num(1), Num(0.75)))),
+			Assign1(Idx(N(t), N(h)), Str("half")),
+			Assign1(Idx(N(t), Num(2.5)), Str("x")),
+			CallSN("emit", Str("fractional-store"), Idx(N(t), N(h)), Idx(N(t), Num(2.5)), Idx(N(t), Num(2)), Idx(N(t), Num(3)), Un("#", N(t)),
+				CallN("rawget", N(t), N(h)), CallN("rawget", N(t), Call(Dot(N("math"), "floor"), N(h))))}
+	}
+	if g.R.Intn(30) == 0 {
 		// x op c1 op c2 groups from the left: with floating-point operands the
 		// grouping is observable (compared with the same computation done in steps)
 		x, s1 := g.fresh("fx"), g.fresh("fs")
